@@ -13,13 +13,34 @@ from vlib import interp as I
 from vlib import psy
 
 
-def outcomes(prog, tree, trace=False):
+# Undefined locals of the TRANSFORMED program: two sentinel valuations, the
+# same in the interpreter and in the gfortran confirmation
+# (-finit-integer=<v> -finit-real=zero). A transformed program whose result
+# does not depend on them and equals the original's is fine; otherwise the
+# difference is observable.
+SENTINELS = [{"int": -3, "real": 0, "log": False},
+             {"int": 11, "real": 0, "log": False}]
+
+
+def sentinel_flags(sent):
+    return (f"-finit-integer={sent['int']}", "-finit-real=zero",
+            "-finit-logical=false")
+
+
+def outcomes(prog, tree, trace=False, uninit=None):
     """Per input: ('ok', observables, interp) or (kind, message, None) with
     kind in unsup / ood / err."""
     out = []
+
+    def setup(itp):
+        if uninit is not None:
+            from fractions import Fraction
+            itp.uninit = {"int": uninit["int"],
+                          "real": Fraction(uninit["real"]),
+                          "log": uninit["log"]}
     for inp in prog.inputs:
         try:
-            obs, itp = I.run_prog(prog, tree, inp, trace=trace)
+            obs, itp = I.run_prog(prog, tree, inp, trace=trace, setup=setup)
             out.append(("ok", obs, itp))
         except I.Unsupported as err:
             out.append(("unsup", str(err), None))
@@ -132,8 +153,12 @@ class TransCheck:
             ctx.label(f"{name}:{status.split(':')[0]}")
             return None
         orig_out = outcomes(prog, orig)
-        new_out = outcomes(prog, new)
-        got = compare(orig_out, new_out)
+        got = None
+        for sent in SENTINELS:
+            new_out = outcomes(prog, new, uninit=sent)
+            got = compare(orig_out, new_out)
+            if got is not None:
+                break
         if got and got[0] == "discard":
             ctx.discard(got[1])
             return None
@@ -191,11 +216,15 @@ class TransCheck:
         except Exception as err:      # pylint: disable=broad-except
             return f"transformed tree cannot be written: " \
                    f"{type(err).__name__}: {err}"
-        got = gfortran_compare(case["uid"], case["driver"], text0, text1,
-                               extra_flags=self.extra_flags)
-        if got is None or got[0] == "invalid":
-            return None
-        return got[1]
+        for sent in SENTINELS:
+            got = gfortran_compare(
+                case["uid"], case["driver"], text0, text1,
+                extra_flags=tuple(self.extra_flags) + sentinel_flags(sent))
+            if got is not None and got[0] == "invalid":
+                return None
+            if got is not None:
+                return got[1]
+        return None
 
     def run(self, ctx, quick_total, thorough_total, names=None):
         from hypothesis import strategies as st
